@@ -680,12 +680,48 @@ class Obl:
     def key(self):
         return "%s|%s|%s" % (self.fn.id, self.kind, "|".join(norm_text(t) for t in self.terms))
 
+    def old_key(self):
+        return "%s|%s|%s" % (self.fn.id, self.kind, "|".join(norm_text_named(t) for t in self.terms))
+
     def __repr__(self):
         return "Obl(%s %s %s @%s: %s)" % (self.fn.id[-60:], self.kind, [fmt(t)[:60] for t in self.terms], self.line, self.status)
 
 
-def norm_text(t):
+def anon(t, ups=None):
+    """copy of a term with every local-variable NAME removed: parameters become $<position>, re-assigned locals φ,
+    captured variables ^<order of first occurrence>.  Keys built from this text survive renaming of locals/parameters."""
+    if ups is None:
+        ups = {}
+    if not isinstance(t, tuple) or not t:
+        return t
+    if t[0] == "param":
+        return ("param", "$%d" % t[2] if isinstance(t[2], int) else t[1], t[2])
+    if t[0] == "phi":
+        return ("phi", 0, None)
+    if t[0] == "upvar":
+        k = ups.setdefault(t[1], len(ups) + 1)
+        return ("upvar", "^%d" % k)
+    out = []
+    for y in t:
+        if isinstance(y, tuple):
+            if y and isinstance(y[0], str):
+                out.append(anon(y, ups))
+            else:
+                out.append(tuple(anon(z, ups) if isinstance(z, tuple) else z for z in y))
+        else:
+            out.append(y)
+    return tuple(out)
+
+
+def norm_text_named(t):
+    """the pre-anonymisation key text (kept for migrating tables)"""
     s = fmt(t)
+    s = re.sub(r"φ_\d+", "φ", s)
+    return s[:160]
+
+
+def norm_text(t):
+    s = fmt(anon(t))
     s = re.sub(r"φ_\d+", "φ", s)
     return s[:160]
 
